@@ -423,6 +423,20 @@ def tearLast (files : List (Nat × Bytes)) (cut : Nat) : List (Nat × Bytes) :=
   | none => files
   | some (seq, b) => files.dropLast ++ [(seq, b.take cut)]
 
+/-- damage done to one file by a crash: torn at `n`, one byte inverted, or everything from `n` on zeroed
+    (size extended, data never written) -/
+inductive Dmg | cut (n : Nat) | flip (off : Nat) | zero (off : Nat)
+deriving DecidableEq, Repr, Inhabited
+
+def Dmg.apply : Dmg → Bytes → Bytes
+  | .cut n, b => b.take n
+  | .flip o, b => if o < b.length then b.take o ++ ((b.drop o).headD 0 ^^^ 255) :: b.drop (o + 1) else b
+  | .zero o, b => b.take o ++ zeros (b.length - o)
+
+/-- the directory with file `seq` damaged (any file, not only the newest) -/
+def damageFile (files : List (Nat × Bytes)) (seq : Nat) (d : Dmg) : List (Nat × Bytes) :=
+  files.map fun f => if f.1 = seq then (f.1, d.apply f.2) else f
+
 /-- run the worker until it is idle; returns the callback results in order -/
 def St.drain : Nat → St → St × List (Ref × Bool)
   | 0, σ => (σ, [])
